@@ -5,7 +5,7 @@ import sys
 import time
 
 from . import core, engine, roles as roles_mod
-from . import search, nfa, da, ser, cli, pure, lazy, helper, misc
+from . import search, nfa, da, ser, cli, pure, lazy, helper, misc, acc
 
 TRUSTED = [
     "L1: for a power of two B, x < kB and c < B imply x ^ c < kB; next_power_of_two(n) >= n",
@@ -60,6 +60,9 @@ def construction_rules(ctx, R, E):
     da.rule_array_growth(ctx, R, E.NR, E.BR)
     helper.rule_helper(ctx, R)
     pure.rule_mapper(ctx, R)
+    acc.rule_accessors(ctx, R)
+    acc.rule_kind_pred(ctx, R)
+    lazy.rule_lazy_ctor(ctx, R, rules={"LAZY-CTOR"})
 
 
 def run_C01(ctx, R):
@@ -113,6 +116,7 @@ def run_C06(ctx, R):
     da.rule_sanitiser(ctx, R, E.NR, E.BR)
     # "before and after a serialization round trip"
     ser.rule_ser(ctx, R)
+    acc.rule_accessors(ctx, R)
 
 
 def run_C07(ctx, R):
@@ -140,6 +144,8 @@ def run_C07(ctx, R):
     lazy.rule_dec(ctx, R)
     lazy.rule_lazy_adapt(ctx, R)
     lazy.rule_lazy_ctor(ctx, R, rules={"LAZY-CTOR"})
+    acc.rule_accessors(ctx, R)
+    acc.rule_kind_pred(ctx, R)
 
 
 def run_C08(ctx, R):
@@ -156,6 +162,8 @@ def run_C08(ctx, R):
 
 def run_C09(ctx, R):
     ser.rule_ser(ctx, R)
+    acc.rule_accessors(ctx, R)
+    acc.rule_kind_pred(ctx, R)
 
 
 def run_C10(ctx, R):
@@ -194,6 +202,8 @@ def run_C13(ctx, R):
     lazy.rule_lazy_ctor(ctx, R, rules={"LAZY-CTOR"})
     with ctx.only({"SER-MK"}):
         ser.rule_ser(ctx, R)
+    acc.rule_kind_pred(ctx, R)
+    acc.rule_accessors(ctx, R)
     nfa.rule_outputs_pass(ctx, R, E.NR)
     nfa.rule_fail_passes(ctx, R, E.NR)
     search.rule_trans(ctx, R)
